@@ -70,6 +70,11 @@ type T0 int
 
 type LI interface{ Foo() int }
 
+// a DEFINED type whose underlying type is the empty interface (not identical to any / interface{}), and an alias of it
+type LE interface{}
+
+type LEA = interface{}
+
 type LG[T any] struct{ V T }
 
 type LA = dep.T
@@ -347,6 +352,10 @@ func Corpus(o Options) []Case {
 		sig("variadic any", "M(format string, v ...any) string")
 		sig("variadic interface{}", "M(format string, v ...interface{}) string")
 		sig("variadic unnamed", "M(int, ...string) int")
+		sig("variadic of a defined empty-interface type", "M(msg string, kv ...LE) string")
+		sig("variadic of an alias of the empty interface", "M(msg string, kv ...LEA) string")
+		sig("variadic of a defined empty-interface type only", "M(kv ...LE)")
+		sig("variadic of interfaces with methods", "M(v ...LI) error\n\tN(r ...io.Reader) (int, error)")
 		sig("variadic of slices", "M(v ...[]byte) int")
 		sig("variadic of funcs", "M(v ...func(int) error)")
 		sig("variadic of foreign", "M(a dep.T, v ...dep.T) dep.T")
